@@ -647,7 +647,13 @@ func cmdEnvelope(args []string) {
 			res := w.Root.ResolveString(text, c.Op, gq.VarsToGo(c.Vars))
 			sk := skeleton(res)
 			sk["lex"] = lexemes(text)
-			sk["rejected"] = !c.Exp.HasData
+			// which requests must be refused is C10's subject: a request the known deviations (M(K)) let through
+			// is judged here as an executed one
+			rejected := !c.Exp.HasData
+			if c.ExpK != nil {
+				rejected = rejected && !c.ExpK.HasData
+			}
+			sk["rejected"] = rejected
 			sk["text"] = text
 			sk["layout"] = li
 			_ = enc.Encode(sk)
